@@ -163,6 +163,24 @@ func (r *replicator) GetQueue() []cid.Cid {
 	return fetching
 }
 
+// Missing records hashes that are known to be absent from the log although entries of the log
+// point to them: the next request asks for them, as for anything an earlier request could not
+// fetch
+func (r *replicator) Missing(hashes []cid.Cid) {
+	r.muProcess.Lock()
+	defer r.muProcess.Unlock()
+
+	for _, hash := range hashes {
+		if _, inLog := r.store.OpLog().Get(hash); inLog {
+			continue
+		}
+
+		if _, known := r.tasks[hash]; !known {
+			r.tasks[hash] = stateFailed
+		}
+	}
+}
+
 // request is what one Load call keeps track of: its workers, and the hashes it asked for
 // while an earlier request was still taking care of them
 type request struct {
